@@ -135,8 +135,8 @@ func c15ObfCheck(t vh.Fataler, rec *vh.Rec, c c15ObfCase, reps int) {
 				classes = append(classes, ob.name+":MISMATCH")
 				rec.Case(true, vh.Digest(c), c, classes...)
 				key := "obf:" + ob.name + ":roundtrip"
-				if L == 0 {
-					key = "obf:" + ob.name + ":empty-tag"
+				if L == 0 && len(ct) == 0 {
+					key = "obf:" + ob.name + ":empty-tag" // the empty tag was given an empty encoding, which the decoder refuses
 				}
 				got := "error: "
 				if rerr != nil {
@@ -332,7 +332,7 @@ func c15RevealCheck(t vh.Fataler, rec *vh.Rec, c c15RevealCase, count bool) {
 		}
 		if oerr == nil && (rerr != nil || !bytes.Equal(back, pt)) {
 			key := "obf:" + ob.name + ":roundtrip"
-			if len(pt) == 0 {
+			if len(pt) == 0 && len(ct) == 0 {
 				key = "obf:" + ob.name + ":empty-tag"
 			}
 			rec.Violation(t, key, c, "%s: a tag of %d bytes revealed from arbitrary input is accepted by Obfuscate but does not reveal back (err=%v)", ob.name, len(pt), rerr)
